@@ -174,7 +174,10 @@ def step (st : State) (w : List String) : State × String :=
       | some e => (st, toString e)
       | none => (st, "none")
     | _, _, _, _, _, _ => (st, "bad-op")
-  | ["rem", stored, ttl, cut, now] =>
+  | "rem" :: stored :: ttl :: cut :: now :: state =>
+    -- `state` lists non-time facts about the entry (claimed refresh, scope, rate limit, original TTL):
+    -- `remaining` is a function of the four times only
+    if !(state.all (fun x => ["claimed", "scoped", "limited", "orig"].contains x)) then (st, "bad-op") else
     match parseI stored, ttl.toInt?, parseT cut, parseI now with
     | some stored, some ttl, some cut, some now => (st, toString (remaining stored ttl cut now))
     | _, _, _, _ => (st, "bad-op")
